@@ -226,9 +226,9 @@ theorem decodeGo_inner (s : List Nat) (hs : ∀ c ∈ s, isSpace c = true) (hne 
 theorem encodeGo_sp : encodeGo [0x20] = [0x20] := by decide
 
 /-- An inner run of white space that contains at least one character surviving the control strip (any
-    white space other than VT, FF, CR, NEL) acts like a single plain space.  (A run made only of VT, FF, CR
-    or NEL is *removed* by the control strip and joins its neighbours: `validate "a\rb" = "ab"`, see the
-    example below.) -/
+    white space other than VT, FF, CR, NEL in the current tree) acts like a single plain space.  (A run made
+    only of white-space characters that the control strip removes joins its neighbours instead, see the
+    examples at the end.) -/
 theorem pad_inner (s : List Nat) (hs : ∀ c ∈ s, isSpace c = true) (hk : ∃ c ∈ s, kept c = true) (a b : Bytes)
     (hlen : (a ++ encodeGo s ++ b).length ≤ 1000) :
     validate (a ++ encodeGo s ++ b) = validate (a ++ [0x20] ++ b) := by
@@ -298,8 +298,8 @@ theorem limit_accept_iff (n : Int) :
 
 -- acceptance, cleaning, trimming, collapsing: "  ls \t -la\n" ↦ "ls -la"
 example : validate [0x20, 0x20, 0x6C, 0x73, 0x20, 0x09, 0x20, 0x2D, 0x6C, 0x61, 0x0A] = .ok [0x6C, 0x73, 0x20, 0x2D, 0x6C, 0x61] := by decide
--- control characters are removed, even when that joins words: "a\x00b\rc" ↦ "abc"
-example : validate [0x61, 0x00, 0x62, 0x0D, 0x63] = .ok [0x61, 0x62, 0x63] := by decide
+-- control characters are removed, even when that joins words: "a\x00b\x7fc" ↦ "abc"
+example : validate [0x61, 0x00, 0x62, 0x7F, 0x63] = .ok [0x61, 0x62, 0x63] := by decide
 -- NBSP (C2 A0) and U+3000 (E3 80 80) are separators: ↦ "a b"
 example : validate [0x61, 0xC2, 0xA0, 0xE3, 0x80, 0x80, 0x62] = .ok [0x61, 0x20, 0x62] := by decide
 -- each rejection reason occurs; the metacharacter test sees through control characters ("a\x00|b")
@@ -321,8 +321,14 @@ example : validate [0xC0, 0xA0] = .ok [0xEF, 0xBF, 0xBD, 0xEF, 0xBF, 0xBD] := by
 -- the hypotheses of pad / pad_inner are satisfiable and the conclusions are not trivial
 example : validate (encodeGo [0x3000, 0x0D] ++ [0x6C, 0x73] ++ encodeGo [0x85, 0x20]) = .ok [0x6C, 0x73] := by decide
 example : validate ([0x61] ++ encodeGo [0x0D, 0x2028] ++ [0x62]) = .ok [0x61, 0x20, 0x62] := by decide
--- ... and the side condition of pad_inner is needed: "a\rb" ↦ "ab"
-example : validate [0x61, 0x0D, 0x62] = .ok [0x61, 0x62] := by decide
+-- ... and the side condition of pad_inner is needed: a white-space character that the control strip removes
+-- joins its neighbours (with the exemption list [\n, \t] of the current tree "a\rb" ↦ "ab"); stated for any such character:
+example (c : Nat) (hs : isSpace c = true) (hk : kept c = false) :
+    stripCtl (decodeGo ([0x61] ++ encodeGo [c] ++ [0x62])) = [0x61, 0x62] := by
+  rw [decodeGo_inner [c] (by intro x hx; simp at hx; subst hx; exact hs) (by simp)]
+  have k1 : kept 0x61 = true := by decide
+  have k2 : kept 0x62 = true := by decide
+  simp [stripCtl, decodeGo, decodeNat, decodeSkip, decode1, Rune.val, List.filter_cons, hk, k1, k2]
 -- idempotence where it holds: "ls -la"
 example : validate [0x6C, 0x73, 0x20, 0x2D, 0x6C, 0x61] = .ok [0x6C, 0x73, 0x20, 0x2D, 0x6C, 0x61] := by decide
 -- limits
